@@ -52,7 +52,10 @@ fn obs(rules: &asca::verif::ParsedRules, w: &Word) -> Result<(Vec<M>, bool), App
 
 fn viol(cx: &mut Cx, sig: String, rule: &str, text: &str, expected: String, observed: String) {
     let (rule, text) = (rule.to_string(), text.to_string());
-    cx.rep.violation(sig, || json!({"case": {"rule": rule, "word": text}, "expected": expected, "observed": observed}));
+    // the expectation comes from the model, not from the tree under test, so it is part of the case: a replay re-runs the
+    // real interpreter and compares with it
+    let sg = sig.clone();
+    cx.rep.violation(sig, || json!({"case": {"rule": rule, "word": text, "expected": expected, "sig": sg}, "expected": expected, "observed": observed}));
 }
 
 fn check_case(cx: &mut Cx, rule: &str, rules: &asca::verif::ParsedRules, text: &str, w: &Word, exp: Expect, sig: &str) {
@@ -246,6 +249,26 @@ pub fn replay(_ctx: &Ctx, case: &Value) -> Report {
     let mut rep = Report::new(RULE);
     let rule = jstr(case, "rule");
     let word = jstr(case, "word");
+    if let Some(expected) = case["expected"].as_str() {
+        let sig = { let s = jstr(case, "sig"); if s.is_empty() { "replay".to_string() } else { s } };
+        rep.eval(1);
+        let cj = || json!({"case": case.clone()});
+        let rules = match compile1(&rule) { Ok(r) => r, Err(Applied::Abort(a)) => { rep.abort(a, cj); return rep } Err(o) => { let t = o.tag(); rep.violation(sig, || json!({"case": case.clone(), "observed": t})); return rep } };
+        if word.is_empty() { return rep }
+        let Ok(w) = parse_word(&word) else { rep.notes.push("word does not parse".into()); return rep };
+        match apply(&rules, &w) {
+            Applied::Ok(r) => {
+                let ms: Vec<M> = r.syllables.iter().flat_map(|s| s.segments.iter().map(to_m)).collect();
+                let st = r.syllables.first().map(|s| crate::sw::stress_code(s.stress) == 1).unwrap_or(false);
+                let observed = if expected.contains(" stressed=") { format!("{ms:?} stressed={st}") } else { format!("{ms:?}") };
+                let ok = if let Some(e) = expected.strip_prefix("Err or ") { observed == e } else if expected == "Err" { false } else if expected == "same syllables" { r.syllables.len() == w.syllables.len() } else { observed == expected };
+                if !ok { rep.violation(sig, || json!({"case": case.clone(), "expected": expected, "observed": observed})); }
+            }
+            Applied::Err(e) => if !expected.starts_with("Err") { rep.violation(sig, || json!({"case": case.clone(), "expected": expected, "observed": e})); },
+            Applied::Abort(a) => rep.abort(a, cj),
+        }
+        return rep;
+    }
     let Ok(w) = parse_word(&word) else { rep.notes.push("word does not parse".into()); return rep };
     let segs = vec![(word.clone(), w)];
     let mut cx = Cx { rep: &mut rep, samples_left: 0 };
